@@ -767,7 +767,7 @@ _TMD = _DM + "treemodel."
 _IO = "dendropy.dataio."
 PROP_MODULES = {
     "C01": [_TMD + "_bipartition", _TMD + "_tree", _DM + "taxonmodel"],
-    "C02": [_IO + "newickreader", _IO + "newickwriter", _IO + "nexusreader", _IO + "nexuswriter", _IO + "nexusprocessing", _IO + "nexmlreader", _IO + "nexmlwriter", _IO + "tokenizer"],
+    "C02": [_IO + "newickreader", _IO + "newickwriter", _IO + "nexusreader", _IO + "nexuswriter", _IO + "nexusprocessing", _IO + "nexmlreader", _IO + "nexmlwriter", _IO + "tokenizer", _IO + "nexmlyielder"],
     "C03": [_TMD + "_tree", _TMD + "_node", _TMD + "_edge"],
     "C04": ["dendropy.calculate.treecompare", _TMD + "_tree", _TMD + "_bipartition"],
     "C05": [_DM + "treecollectionmodel", "dendropy.calculate.treesum", "dendropy.calculate.statistics"],
@@ -1197,6 +1197,7 @@ def generic_rules(prop, index, rep):
         nl = ignored_item_rule(index, rep, rid2, mods)
         ng = guard_object_rule(index, rep, rid2, mods)
         ng += stale_snapshot_rule(index, rep, rid2, mods)
+        ng += found_or_empty_rule(index, rep, rid2, mods)
         rep.ob(rid2, "src/dendropy", "%d nested loops and %d None-guards in the property's modules examined" % (nl, ng), True, nontrivial=nl + ng > 0)
 
 
@@ -1564,4 +1565,33 @@ def exception_ctor_rule(index, rep, rid, modules):
                           "%s builds `%s`, but the constructor in effect for %s is %s%s: %s - raising the documented parse error then itself fails with a TypeError, which is what the caller sees" % (
                               f.qualname, norm(c)[:70], k.name, init.qualname, "(" + ", ".join(names) + ")",
                               "; ".join(x for x in ["it has no parameter %s" % badkw if badkw else "", "too many positional arguments" if toomany else "", "required %s not given" % missing if missing else ""] if x)))
+    return n
+
+
+SIZED_BY_NAME = {"taxon_namespace": "TaxonNamespace", "tree_list": "TreeList", "char_matrix": "CharacterMatrix", "tree_array": "TreeArray"}
+
+
+def found_or_empty_rule(index, rep, rid, modules):
+    """'Not found' is None, not empty: a value looked up with <map>.get(...) that holds one of the library's sized
+    collections (a namespace, a tree list, a matrix - all define __len__) is tested with `is None`; by truthiness an
+    EMPTY collection is mistaken for a missing one."""
+    n = 0
+    for m in modules:
+        for f in index.functions_in_module(m):
+            looked = {}
+            for a in walk_no_nested(f.node):
+                if isinstance(a, ast.Assign) and len(a.targets) == 1 and isinstance(a.targets[0], ast.Name) and isinstance(a.value, ast.Call) and call_name(a.value) == "get" and isinstance(a.value.func, ast.Attribute) \
+                        and a.targets[0].id.lstrip("_") in SIZED_BY_NAME:
+                    k = [c for c in index.classes.values() if c.name == SIZED_BY_NAME[a.targets[0].id.lstrip("_")]]
+                    if k and any("__len__" in b.methods for b in index.mro(k[0])):
+                        looked[a.targets[0].id] = a
+            if not looked:
+                continue
+            g = cfg_of(f)
+            for t in g.nodes:
+                if t.kind == "test" and isinstance(t.ast, ast.Name) and t.ast.id in looked:
+                    n += 1
+                    rep.check(False, rid, f.qualname, "looked-up %s tested by truthiness" % SIZED_BY_NAME[t.ast.id.lstrip("_")], fn_where(f, t.stmt), "",
+                              "%s fetches `%s` with `%s` and then tests it by truthiness: a %s defines __len__, so an EMPTY one is falsy and is reported as 'not found' - an empty tree list, or trees that carry no taxa, cannot be read back from the NeXML the library itself wrote" % (f.qualname, t.ast.id, norm(looked[t.ast.id].value)[:50], SIZED_BY_NAME[t.ast.id.lstrip("_")]))
+            n += len(looked)
     return n
